@@ -28,7 +28,7 @@ class Outcome:
         self.coverage["states"] += r.distinct
         self.coverage["transitions"] += r.states
         self.coverage.setdefault("model_runs", []).append(
-            {"model": name, "distinct_states": r.distinct, "states_generated": r.states, "depth": r.depth, "wall_s": round(r.wall, 1), "ok": r.ok}
+            {"model": name, "distinct_states": r.distinct, "states_generated": r.states, "depth": r.depth, "wall_s": round(r.wall, 1), "ok": r.ok, "exhausted": getattr(r, "exhausted", True)}
         )
         if not r.ok:
             self.machinery.append("model check %s: violation=%s errors=%s\n%s" % (name, r.violation, r.errors, getattr(r, "trace_tail", "")[-2500:]))
